@@ -118,10 +118,15 @@ func (r *scopeRegistry) Report(reporter StatsReporter) {
 		subscopeBucket.mu.RLock()
 
 		for name, s := range subscopeBucket.s {
+			// n.b. Read the flag before reporting: a scope that is closed
+			//      only after it has been reported below is removed by the
+			//      next pass, once that pass has reported what was recorded
+			//      in between.
+			closed := s.closed.Load()
 			s.report(reporter)
 
-			if s.closed.Load() {
-				r.removeWithRLock(subscopeBucket, name)
+			if closed {
+				r.removeWithRLock(subscopeBucket, name, s)
 				s.clearMetrics()
 			}
 		}
@@ -138,10 +143,11 @@ func (r *scopeRegistry) CachedReport() {
 		subscopeBucket.mu.RLock()
 
 		for name, s := range subscopeBucket.s {
+			closed := s.closed.Load()
 			s.cachedReport()
 
-			if s.closed.Load() {
-				r.removeWithRLock(subscopeBucket, name)
+			if closed {
+				r.removeWithRLock(subscopeBucket, name, s)
 				s.clearMetrics()
 			}
 		}
@@ -208,8 +214,8 @@ func (r *scopeRegistry) Subscope(parent *scope, prefix string, tags map[string]s
 	// If a scope was found above but we didn't return, we need to remove the
 	// scope from both keys.
 	if ok {
-		r.removeWithRLock(subscopeBucket, unsanitizedKey)
-		r.removeWithRLock(subscopeBucket, sanitizedKey)
+		r.removeWithRLock(subscopeBucket, unsanitizedKey, s)
+		r.removeWithRLock(subscopeBucket, sanitizedKey, s)
 		s.clearMetrics()
 	}
 
@@ -226,7 +232,9 @@ func (r *scopeRegistry) Subscope(parent *scope, prefix string, tags map[string]s
 	subscopeBucket.mu.Lock()
 	defer subscopeBucket.mu.Unlock()
 
-	if s, ok := r.lockedLookup(subscopeBucket, sanitizedKey); ok {
+	// n.b. A closed scope still registered here is in the middle of being
+	//      removed (it has already been reported): do not hand it out again.
+	if s, ok := r.lockedLookup(subscopeBucket, sanitizedKey); ok && (!s.closed.Load() || s.testScope) {
 		if _, ok = r.lockedLookup(subscopeBucket, unsanitizedKey); !ok {
 			subscopeBucket.s[unsanitizedKey] = s
 		}
@@ -286,14 +294,19 @@ func (r *scopeRegistry) purgeIfRootClosed() {
 	}
 }
 
-func (r *scopeRegistry) removeWithRLock(subscopeBucket *scopeBucket, key string) {
+func (r *scopeRegistry) removeWithRLock(subscopeBucket *scopeBucket, key string, s *scope) {
 	// n.b. This function must lock the registry for writing and return it to an
 	//      RLocked state prior to exiting. Defer order is important (LIFO).
 	subscopeBucket.mu.RUnlock()
 	defer subscopeBucket.mu.RLock()
 	subscopeBucket.mu.Lock()
 	defer subscopeBucket.mu.Unlock()
-	delete(subscopeBucket.s, key)
+	// n.b. The read lock was released above, so a new live scope may have
+	//      been registered under this key in the meantime: only remove the
+	//      entry if it still refers to the scope being removed.
+	if subscopeBucket.s[key] == s {
+		delete(subscopeBucket.s, key)
+	}
 }
 
 // Records internal Metrics' cardinalities.
